@@ -30,11 +30,12 @@ def mkkey(rule, file, func, construct):
 
 
 class Entry:
-    __slots__ = ("verdict", "rule", "file", "func", "construct", "detail", "line", "key")
+    __slots__ = ("verdict", "rule", "file", "func", "construct", "detail", "line", "key", "firm")
 
-    def __init__(self, verdict, rule, file, func, construct, detail="", line=None):
+    def __init__(self, verdict, rule, file, func, construct, detail="", line=None, firm=False):
         self.verdict, self.rule, self.file, self.func = verdict, rule, file, func
         self.construct, self.detail, self.line = construct, detail, line
+        self.firm = firm          # the verdict rests on a construct that was found (not on a shape that failed to match)
         self.key = mkkey(rule, file, func, construct)
 
     def loc(self):
@@ -64,16 +65,16 @@ class Report:
     def rule(self, rid, text):
         self.rules[rid] = text
 
-    def add(self, verdict, rule, file, func, construct, detail="", line=None):
-        e = Entry(verdict, rule, file, func, construct, detail, line)
+    def add(self, verdict, rule, file, func, construct, detail="", line=None, firm=False):
+        e = Entry(verdict, rule, file, func, construct, detail, line, firm)
         self.entries.append(e)
         return e
 
     def proved(self, rule, file, func, construct, detail="", line=None):
         return self.add("PROVED", rule, file, func, construct, detail, line)
 
-    def violation(self, rule, file, func, construct, detail="", line=None):
-        return self.add("VIOLATION", rule, file, func, construct, detail, line)
+    def violation(self, rule, file, func, construct, detail="", line=None, firm=False):
+        return self.add("VIOLATION", rule, file, func, construct, detail, line, firm)
 
     def assumed(self, rule, file, func, construct, detail="", line=None):
         return self.add("ASSUMED", rule, file, func, construct, detail, line)
@@ -81,8 +82,10 @@ class Report:
     def undecided(self, rule, file, func, construct, detail="", line=None):
         return self.add("UNDECIDED", rule, file, func, construct, detail, line)
 
-    def check(self, ok, rule, file, func, construct, detail="", line=None):
-        return (self.proved if ok else self.violation)(rule, file, func, construct, detail, line)
+    def check(self, ok, rule, file, func, construct, detail="", line=None, firm=False):
+        if ok:
+            return self.proved(rule, file, func, construct, detail, line)
+        return self.violation(rule, file, func, construct, detail, line, firm)
 
     def error(self, msg):
         self.errors.append(str(msg))
@@ -113,7 +116,7 @@ class Report:
         if not rs:
             return
         for e in self.entries:
-            if e.verdict != "VIOLATION" or shapes.shape_free(e.rule):
+            if e.verdict != "VIOLATION" or shapes.shape_free(e.rule) or e.firm:
                 continue
             fn = (e.func or "")
             d = rs.get(e.file or "", 0)
@@ -241,7 +244,7 @@ def borrow(rep, other_pid, rid, text, select):
     for e in sub.entries:
         if select(e):
             n += 1
-            rep.add(e.verdict, rid, e.file, e.func, f"[{e.rule}] {e.construct}", e.detail, e.line)
+            rep.add(e.verdict, rid, e.file, e.func, f"[{e.rule}] {e.construct}", e.detail, e.line, getattr(e, "firm", False))
     return n
 
 
